@@ -165,8 +165,14 @@ func runC17(c *Ctx) {
 	if proxy != nil && gas != nil {
 		reach := c.staticReach(gas, 6)
 		var middle []*ssa.Function
-		for _, nme := range []string{"(*pkg/middleware.storedSessionLoader).loadSession$1", "(*pkg/middleware.jwtSessionLoader).loadSession$1", "pkg/middleware.loadBasicAuthSession$2", "pkg/middleware.injectRequestHeaders$1", "pkg/middleware.injectResponseHeaders$1", "pkg/middleware.stripHeaders$1"} {
-			if f := c.Fn(rule, nme); f != nil {
+		for _, nme := range []string{"(*pkg/middleware.storedSessionLoader).loadSession$1", "(*pkg/middleware.jwtSessionLoader).loadSession$1", "pkg/middleware.loadBasicAuthSession$2", "pkg/middleware.injectRequestHeaders$1", "pkg/middleware.injectResponseHeaders$1", "<strip-handler>"} {
+			var f *ssa.Function
+			if nme == "<strip-handler>" {
+				f = c.stripHandlerFn(rule)
+			} else {
+				f = c.Fn(rule, nme)
+			}
+			if f != nil {
 				middle = append(middle, f)
 				for g := range c.staticReach(f, 6) {
 					reach[g] = true
